@@ -48,7 +48,7 @@ def rustc_cmd(src, out, emit="link", extra=()):
     return cmd
 
 
-def compile_one(src, out, emit="link", extra=(), timeout=600):
+def compile_one(src, out, emit="link", extra=(), timeout=1800):
     p = subprocess.run(rustc_cmd(src, out, emit, extra), stdout=subprocess.PIPE, stderr=subprocess.PIPE,
                        text=True, timeout=timeout)
     return p.returncode, p.stderr
